@@ -62,7 +62,13 @@ impl Report {
     pub fn nontrivial(&mut self, digest: u64) {
         self.digests.insert(digest);
     }
-    pub fn violation(&mut self, sig: &str, what: &str, replay: J, detail: J) {
+    pub fn violation(&mut self, sig: &str, what: &str, mut replay: J, detail: J) {
+        if log::max_level() == log::LevelFilter::Trace {
+            if let Some(o) = replay.as_object_mut() {
+                // this shard ran with the trace-level logger; a replay needs `--trace-log 1` too
+                o.insert("trace-log".into(), json!(1));
+            }
+        }
         let e = self
             .violations
             .entry(sig.to_owned())
@@ -72,6 +78,10 @@ impl Report {
     pub fn finish(mut self, out: &str) {
         if let Some(mut w) = self.caselog.take() {
             let _ = w.flush();
+        }
+        let logged = LOG_RECORDS.load(std::sync::atomic::Ordering::Relaxed);
+        if logged > 0 {
+            self.add("trace-logger.records-formatted", logged);
         }
         let viol: Vec<J> = self
             .violations
@@ -190,4 +200,36 @@ pub fn rel_file(f: &str) -> String {
 pub fn panic_sig(p: &PanicInfo) -> String {
     let func = if p.func.is_empty() { "?".to_owned() } else { p.func.clone() };
     format!("panic@{}:{}", rel_file(&p.file), func)
+}
+
+
+/// Number of log records the trace-level logger formatted (see `install_trace_logger`).
+pub static LOG_RECORDS: std::sync::atomic::AtomicU64 = std::sync::atomic::AtomicU64::new(0);
+
+struct TraceLogger;
+
+impl log::Log for TraceLogger {
+    fn enabled(&self, _: &log::Metadata) -> bool {
+        true
+    }
+    fn log(&self, record: &log::Record) {
+        // format the record (that is what evaluates the arguments of the log macro) and throw the text away
+        use std::fmt::Write;
+        let mut sink = String::new();
+        let _ = write!(sink, "{}", record.args());
+        std::hint::black_box(&sink);
+        LOG_RECORDS.fetch_add(1, std::sync::atomic::Ordering::Relaxed);
+    }
+    fn flush(&self) {}
+}
+
+/// A program that uses these libraries may run with any `log` level. The libraries' log statements are only
+/// evaluated when a logger accepts them, so a slip inside one (a slice on a byte index, a "getter" that allocates)
+/// stays invisible under the default level. Some shards of every workload therefore run with a logger that accepts and
+/// formats everything; what they observe must be what the silent shards observe.
+pub fn install_trace_logger() {
+    static L: TraceLogger = TraceLogger;
+    if log::set_logger(&L).is_ok() {
+        log::set_max_level(log::LevelFilter::Trace);
+    }
 }
